@@ -271,6 +271,67 @@ def _simple_helper(h):
     return True
 
 
+def expression_helper(h, is_method):
+    """(parameter names, expression) if the helper amounts to `return E` with E free of side effects, else None"""
+    if not _simple_helper(h):
+        return None
+    f = copy.deepcopy(h)
+    for n in ast.walk(f):
+        n.__dict__.pop('_parent', None)
+        n.__dict__.pop('_noops', None)
+    cnt = [0]
+    for _ in range(6):
+        a = assignments_to_ifexp(f)
+        b = inline_temps(f)
+        c = drop_dead_locals(f)
+        if not (a or b or c):
+            break
+    body = [s_ for s_ in f.body if not isinstance(s_, ast.Pass)]
+    if len(body) == 2 and isinstance(body[0], ast.If) and isinstance(body[1], ast.Return) and len(body[0].body) == 1 and isinstance(body[0].body[0], ast.Return) and not body[0].orelse \
+            and body[0].body[0].value is not None and body[1].value is not None:
+        body = [ast.Return(value=ast.IfExp(test=body[0].test, body=body[0].body[0].value, orelse=body[1].value))]
+    if len(body) != 1 or not isinstance(body[0], ast.Return) or body[0].value is None or not is_pure(body[0].value):
+        return None
+    params = [a.arg for a in f.args.args]
+    static = any(isinstance(d, ast.Name) and d.id == 'staticmethod' for d in f.decorator_list)
+    if is_method and not static:
+        params = params[1:]
+    if f.args.defaults:
+        return None
+    return params, body[0].value
+
+
+def inline_expression_helpers(func, helpers):
+    """calls of expression helpers with side-effect-free arguments are replaced by the helper's expression"""
+    table = {}
+    for name, (h, is_method) in helpers.items():
+        eh = expression_helper(h, is_method)
+        if eh is not None:
+            table[name] = (eh, is_method)
+    if not table:
+        return False
+    changed = [False]
+
+    class T(ast.NodeTransformer):
+        def visit_Call(self, node):
+            self.generic_visit(node)
+            f = node.func
+            name = None
+            if isinstance(f, ast.Name) and f.id in table and not table[f.id][1]:
+                name = f.id
+            elif isinstance(f, ast.Attribute) and isinstance(f.value, ast.Name) and f.value.id == 'self' and f.attr in table and table[f.attr][1]:
+                name = f.attr
+            if name is None or node.keywords or any(isinstance(a, ast.Starred) for a in node.args):
+                return node
+            (params, expr), _ = table[name]
+            if len(node.args) != len(params) or not all(is_pure(a) for a in node.args):
+                return node
+            changed[0] = True
+            return _Subst(dict(zip(params, node.args))).visit(copy.deepcopy(expr))
+    T().visit(func)
+    return changed[0]
+
+
 def inline_helpers(func, helpers, counter):
     """helpers: name -> (FunctionDef, is_method).  Calls `self.name(args)` / `name(args)` / `Cls.name(args)` that form a whole
     statement (expression statement, assignment value, return value) are replaced by the helper's body."""
@@ -394,6 +455,10 @@ def _fstring_of_format(call):
 class _ExprRewrite(ast.NodeTransformer):
     def visit_Call(self, node):
         self.generic_visit(node)
+        if isinstance(node.func, ast.Name) and node.func.id == 'super' and len(node.args) == 2 and not node.keywords \
+                and isinstance(node.args[1], ast.Name) and node.args[1].id == 'self' and isinstance(node.args[0], ast.Name) and node.args[0].id == _CLASS[0]:
+            node.args = []
+            return node
         f = _fstring_of_format(node)
         return self.visit(f) if f is not None else node
 
@@ -1094,6 +1159,8 @@ def _atoms(cond, then, other, budget):
             return _atoms(c2, other, then, budget)
     if isinstance(cond, ast.Constant) and not isinstance(cond.value, (str, bytes)):
         return then if cond.value else other
+    if isinstance(cond, ast.IfExp):
+        return _atoms(cond.test, _atoms(cond.body, then, other, budget), _atoms(cond.orelse, then, other, budget), budget)
     if isinstance(cond, (ast.Name, ast.Attribute)) and chain(cond) in _SIZED[0]:
         # a list / dict / set / tuple / string is false exactly when it is empty
         c2 = ast.Compare(left=ast.Call(func=ast.Name(id='len', ctx=ast.Load()), args=[cond], keywords=[]), ops=[ast.Eq()], comparators=[ast.Constant(value=0)])
@@ -1122,11 +1189,10 @@ def seq(stmts, k, budget):
     if isinstance(st, TERMINATORS):
         return (_cstmt(st, budget),)
     if isinstance(st, ast.If):
-        if _may_leave(st):
-            rest = seq(stmts[1:], k, budget)
-            return _atoms(st.test, seq(st.body, rest, budget), seq(st.orelse, rest, budget), budget)
-        node = _atoms(st.test, seq(st.body, (), budget), seq(st.orelse, (), budget), budget)
-        return node + seq(stmts[1:], k, budget)
+        # the statements after an `if` are the tail of both of its branches (a branch that always leaves drops its tail):
+        # the result does not depend on whether the source wrote else-branches, guard clauses or nested ifs
+        rest = seq(stmts[1:], k, budget)
+        return _atoms(st.test, seq(st.body, rest, budget), seq(st.orelse, rest, budget), budget)
     return (_cstmt(st, budget),) + seq(stmts[1:], k, budget)
 
 
@@ -1168,7 +1234,10 @@ def _cstmt(st, budget):
         return (type(st).__name__, tuple(st.names))
     if isinstance(st, (ast.Import, ast.ImportFrom)):
         return ('import', ast.unparse(st))
-    if isinstance(st, (ast.FunctionDef, ast.AsyncFunctionDef, ast.ClassDef)):
+    if isinstance(st, (ast.FunctionDef, ast.AsyncFunctionDef)):
+        inner = canonical(st)
+        return ('def', st.name, inner if inner is not None else ast.unparse(st))
+    if isinstance(st, ast.ClassDef):
         return ('def', ast.unparse(st))
     raise NotCanonicalisable(type(st).__name__)
 
@@ -1255,15 +1324,18 @@ def module_constants(tree):
 
 
 _SIZED = [frozenset()]
+_CLASS = [None]
 
 
-def canonical(func, helpers=None, consts=None, sized=None):
+def canonical(func, helpers=None, consts=None, sized=None, cls_name=None):
     """canonical form (text) of a function, or None if it cannot be built.
     helpers: name -> (FunctionDef, is_method) of functions that may be pasted into the body (those the other version of the
     module does not define)."""
     import re
     try:
-        _SIZED[0] = frozenset(sized or ())
+        saved = (_SIZED[0], _CLASS[0])
+        _SIZED[0] = frozenset(sized or ()) if sized is not None else _SIZED[0]
+        _CLASS[0] = cls_name if cls_name is not None else _CLASS[0]
         f = copy.deepcopy(func)
         for n in ast.walk(f):
             n.__dict__.pop('_parent', None)
@@ -1272,7 +1344,9 @@ def canonical(func, helpers=None, consts=None, sized=None):
         if helpers:
             for _ in range(3):
                 usable = {k: v for k, v in helpers.items() if _simple_helper(v[0])}
-                if not inline_helpers(f, usable, counter):
+                x = inline_expression_helpers(f, usable)
+                y = inline_helpers(f, usable, counter)
+                if not (x or y):
                     break
         if consts:
             bound = set(_params(f)) | {n.id for n in ast.walk(f) if isinstance(n, ast.Name) and isinstance(n.ctx, (ast.Store, ast.Del))}
@@ -1308,3 +1382,8 @@ def canonical(func, helpers=None, consts=None, sized=None):
         return _signature(f) + ' :: ' + text
     except (NotCanonicalisable, RecursionError):
         return None
+    finally:
+        try:
+            _SIZED[0], _CLASS[0] = saved
+        except NameError:
+            pass
